@@ -17,6 +17,8 @@ from vf.paraspace import ParaSpace
 core.bind()
 from flowmark import reformat_text  # noqa: E402
 from flowmark.formats.flowmark_markdown import ListSpacing  # noqa: E402
+from flowmark.typography.ellipses import ellipses  # noqa: E402
+from flowmark.typography.smartquotes import smart_quotes  # noqa: E402
 
 LEVEL = "exploration"
 RULE = ("complete enumeration of token sequences x separators x contexts x critical widths x modes, of block sequences, and of "
@@ -150,6 +152,46 @@ def _class_reps():
     return rep
 
 
+class TypoFn(Space):
+    """Function level: smart_quotes and ellipses are idempotent on EVERY string up to a length bound."""
+
+    prop = "C02"
+    name = "typo-fn"
+    SYM = ("'", '"', "a", " ", ".", "s")
+
+    def __init__(self, maxlen):
+        self.maxlen = maxlen
+        self.floors = {"rewritten": 1000}
+
+    def cases(self):
+        for n in range(1, self.maxlen + 1):
+            for t in itertools.product(range(len(self.SYM)), repeat=n):
+                yield t
+
+    def describe(self, case):
+        return {"string": "".join(self.SYM[i] for i in case)}
+
+    def smaller(self, case):
+        for i in range(len(case)):
+            if len(case) > 1:
+                yield case[:i] + case[i + 1:]
+        for i in range(len(case)):
+            if case[i] != 2:
+                yield case[:i] + (2,) + case[i + 1:]
+
+    def evaluate(self, case):
+        s = "".join(self.SYM[i] for i in case)
+        viol, tags = [], []
+        for nm, fn in (("smart_quotes", smart_quotes), ("ellipses", ellipses)):
+            a = fn(s)
+            if a != s:
+                tags.append("rewritten")
+            b = fn(a)
+            if a != b:
+                viol.append(("fn-not-idempotent:" + nm, {"input": s, "once": a, "twice": b}))
+        return Outcome(viol=viol, tags=sorted(set(tags)))
+
+
 def spaces(tier):
     q = tier == "quick"
     oracle = make_oracle(tier)
@@ -164,4 +206,5 @@ def spaces(tier):
     para0.class_rep = para0_rep
     blk = BlockSpace("C02", "blocks", oracle, docspace.contexts(1, ("ul", "bq"), (None,)), 2, (88, 3) if q else (88, 3, 0),
                      modes=(False, True) if not q else (False,), full_upto=2, floors={"pass1-changed": 1000})
-    return [para, para0, blk, Plain(2 if q else 3, [0, 1, 4, 8, 20] if q else [0, 1, 3, 4, 8, 12, 20, 88])]
+    return [para, para0, blk, Plain(2 if q else 3, [0, 1, 4, 8, 20] if q else [0, 1, 3, 4, 8, 12, 20, 88]),
+            TypoFn(8 if q else 9)]
